@@ -246,6 +246,40 @@ def conformance_job(args):
                 out["violations"].append({"what": "free-run:" + mm.what, "seed": sd, "run_in_ensemble": k, "detail": mm.detail})
                 break
             pos += used[0]
+        # the same, read on a time grid (the occupancy at time t and the final size are read this way): rows must be the
+        # state of the reference path at each grid time, also long after absorption
+        if mode[0] != "exact":
+            continue
+        np.random.seed(sd)
+        rec = Recorder(np.random.exponential, np.random.poisson)
+        grid = [0.0, 0.45, 1.3, T, 12.5 * T, 140.0 * T]
+        try:
+            np.random.exponential, np.random.poisson = rec.exponential, rec.poisson
+            with contextlib.redirect_stdout(io.StringIO()):
+                Xg, Jg, tg = m.solve_stochast(np.array(grid), ENSEMBLE, exact=True, full_output=True)
+        except Exception as e:
+            out["violations"].append({"what": "free-run-grid:raised", "seed": sd, "detail": "%s: %s" % (type(e).__name__, e)})
+            continue
+        finally:
+            np.random.exponential, np.random.poisson = saved
+        pos = 0
+        for k in range(ENSEMBLE):
+            out["runs"] += 1
+            try:
+                rp = stoch.ref_path(rs, x0, 0.0, grid[-1], True, rec.log[pos:], partial=(k < ENSEMBLE - 1))
+            except stoch.Skip:
+                break
+            except stoch.Mismatch as mm:
+                out["violations"].append({"what": "free-run-grid:" + mm.what, "seed": sd, "run_in_ensemble": k, "detail": mm.detail})
+                break
+            pos += rp["used"]
+            rows, counts = stoch.grid_expectation(rp, grid, rs.apply, rs.ne)
+            got = np.asarray(Xg[k], float)
+            if got.shape != np.asarray(rows, float).shape or not np.array_equal(got, np.asarray(rows, float)):
+                out["violations"].append({"what": "free-run-grid:row-not-path-state", "seed": sd, "run_in_ensemble": k,
+                                          "detail": {"grid": grid, "got": got.tolist(), "want": rows, "path_T": rp["T"][:10]}})
+                break
+            out["steps"] += len(rp["T"]) - 1
     return out
 
 
